@@ -110,7 +110,7 @@ func (s *Server) typecheck(ctx context.Context, uri lsp.DocumentURI, version uin
 	var res []lsp.Diagnostic
 
 	_, err := compiler.Compile(ctx, uri.Filename(), content, compiler.Params{CheckOnly: true, Verbose: true})
-	for _, p := range status.FromError(err) {
+	for _, p := range problems(err, uri.Filename(), content) {
 		rng, _, _ := strings.Cut(content[p.Origin.Offset:p.Origin.EndOffset], "\n")
 		res = append(res, lsp.Diagnostic{
 			Range: lsp.Range{
@@ -134,6 +134,32 @@ func (s *Server) typecheck(ctx context.Context, uri lsp.DocumentURI, version uin
 		Version:     version,
 		Diagnostics: res,
 	})
+}
+
+// problems unpacks the result of a compilation, making sure that every error has a position inside
+// the document: syntax errors are not status errors and come without a source range.
+func problems(err error, filename, content string) status.Status {
+	if se, ok := err.(tm.SyntaxError); ok && 0 <= se.Offset && se.Offset <= se.Endoffset && se.Endoffset <= len(content) {
+		before := content[:se.Offset]
+		return status.Status{&status.Error{
+			Origin: status.SourceRange{
+				Filename:  filename,
+				Offset:    se.Offset,
+				EndOffset: se.Endoffset,
+				Line:      strings.Count(before, "\n") + 1,
+				Column:    len(before) - strings.LastIndexByte(before, '\n'),
+			},
+			Msg: "syntax error",
+		}}
+	}
+	ret := status.FromError(err)
+	for _, p := range ret {
+		if p.Origin.Line <= 0 {
+			// No position is known: report at the beginning of the document.
+			p.Origin = status.SourceRange{Filename: filename, Line: 1, Column: 1}
+		}
+	}
+	return ret
 }
 
 func keepGoing(err tm.SyntaxError) bool { return true }
